@@ -443,6 +443,8 @@ def compute_form_action(form, coefficient):
         return replace(form, replacement_map)
 
     # Pick last argument (will be replaced)
+    if not arguments:
+        raise ValueError("No arguments to replace in form.")
     u = arguments[-1]
 
     fs = u.ufl_function_space()
